@@ -2,6 +2,6 @@ SPECIFICATION Spec
 CONSTANTS
   Variants = 16
   CodeMinRun = 3
-  Types = {"ip6", "addr6", "ip4", "mac", "u8", "u16", "u32", "int", "bool", "bytes"}
+  Types = {"ip6", "addr6", "ip4", "mac", "u8", "u16", "u32", "int", "bool", "bytes", "time", "addr6z"}
 INVARIANTS Lemmas Export
 CHECK_DEADLOCK FALSE
